@@ -12,7 +12,7 @@ INFO = {
         'the space of all finite vectors of that length. Per path the result must equal the result of the real code on the canonical '
         'dense int ranks of W (this is invariance under every strictly increasing relabelling, ties exactly when equal, for int, '
         'float, bool and mixed vectors at once); scores are checked against ranks = -scores the same way; ranks omitted vs ranks=[0..n-1] '
-        'is a concrete comparison. Path feasibility and exhaustiveness are decided by z3 (linear real/int arithmetic, exact for all finite numbers).'),
+        'is a concrete comparison; the result is also compared with the independent float reference posterior for W (1e-9), so that a tie lost identically in every encoding is still seen. Path feasibility and exhaustiveness are decided by z3 (linear real/int arithmetic, exact for all finite numbers).'),
     'bounds': {
         'quick': 'all five models; n=2,3 teams with all kinds (int/float/bool per position), n=4 with all-int and all-float vectors; ranks and scores; team sizes 1-2',
         'thorough': '+ n=4 with all kinds, n=5 all-int / all-float',
@@ -80,6 +80,13 @@ def run_job(spec, ctx):
         ref = [[(p.mu, p.sigma) for p in t] for t in m2.rate(t2, ranks=list(W))]
         ok = val['exc'] is None and _same([[(p.mu, p.sigma) for p in t] for t in val['out']], ref)
         if ok:
+            # second, code-independent oracle for "tied exactly when equal": the float reference posterior for W
+            # (a defect that loses ties the same way in every encoding is invisible to the self-comparison above)
+            from harness import c02
+            ref2 = c02.reference(key, shape, W, False)
+            ok = all(H.rel_close(x[0], y[0], 1e-9, 1e-12) and H.rel_close(x[1], y[1], 1e-9, 1e-12)
+                     for ta, tb in zip(ref, ref2) for x, y in zip(ta, tb))
+        if ok:
             ctx.ob(f'{selector} with weak order {W}: result == result on canonical dense int ranks', 'unsat',
                    sample={'model': key, 'shape': list(shape), 'selector': selector, 'weak_order': W,
                            'path_condition': [str(c) for c in eng.pc][:12]})
@@ -116,6 +123,12 @@ def replay(cand):
     m2, t2 = O.build_concrete(key, shape)
     ref = [[(p.mu, p.sigma) for p in t] for t in m2.rate(t2, ranks=list(W))]
     bad = exc is not None or not _same(out, ref)
+    if not bad:
+        from harness import c02
+        ref2 = c02.reference(key, shape, W, False)
+        bad = not all(H.rel_close(x[0], y[0], 1e-9, 1e-12) and H.rel_close(x[1], y[1], 1e-9, 1e-12)
+                      for ta, tb in zip(out, ref2) for x, y in zip(ta, tb))
+        ref = ref2
     kinds = ','.join(type(v).__name__ for v in vals)
     return {'violated': bool(bad),
             'key': f'{key}:{selector}:kinds={kinds}:order={"".join(map(str, W))}',
